@@ -34,8 +34,10 @@
 (*                    file per blob for all savepoints, looked up by name   *)
 (*                    whatever the index says (F3)                          *)
 (*   InvalidateDoomed _abort() / tpc_abort() invalidate an object that is   *)
-(*                    about to be disowned (it sits in a creating map), so  *)
-(*                    it ends as an ownerless empty ghost (F16)             *)
+(*                    about to be disowned (it sits in a creating map), and *)
+(*                    _invalidate_creating disowns ghosts whose state is in *)
+(*                    the savepoint store only: the object ends as an       *)
+(*                    ownerless empty ghost (F16)                           *)
 (*   LeakUnstored     an object that got oid and jar from the pickler (or   *)
 (*                    from add()) but did not reach the cache when the      *)
 (*                    store loop raised is in no set and keeps oid and jar  *)
@@ -51,9 +53,12 @@ CONSTANTS Obj,              \* application objects (strings); Root is the databa
           Val,              \* values the application writes
           Edges,            \* <<parent, child>> links the application may create
           MaxSp,            \* live savepoints
-          MaxHist,          \* committed transactions (this connection's and the other one's)
+          MaxCommit,        \* successful commits of this connection
           MaxOther,         \* commits of the second connection
-          Ops,              \* enabled families: "add" "load" "sp" "close" "own" "rm" "other"
+          Pre,              \* sequence of objects that are committed children of the root to begin with
+          MaxAct,           \* application actions (modify, link, add, load, savepoint, rollback) per transaction
+          MaxTail,          \* ... once MaxCommit is used up
+          Ops,              \* enabled families: "add" "load" "sp" "close" "own" "rm" "other" "free" (modify unowned objects)
           AliasCreating, SpBlobByName, InvalidateDoomed, LeakUnstored
 
 VARIABLES ob,    \* [All -> [own, cached, flag, serial, st]]  the application's objects
@@ -76,6 +81,7 @@ GhostSt    == St("-", <<>>)            \* no state in memory
 Unloadable == St("unloadable", <<>>)   \* a load would raise
 Lost       == St("lost", <<>>)         \* ownerless ghost: the only copy of the state is gone
 BlobRec    == St("blobrec", <<>>)      \* the (empty) pickle of a blob in the savepoint store
+Gone       == St("gone", <<>>)         \* a disowned blob: its data was handed to the store for good; not used again
 
 Range(s) == {s[i] : i \in DOMAIN s}
 Max(S) == CHOOSE x \in S : \A y \in S : y <= x
@@ -87,12 +93,14 @@ IdxSet(ix) == {o \in All : ix[o] # Absent}
 NoBlob == [o \in All |-> "-"]
 NoTmp == [on |-> FALSE, pos |-> 0, index |-> NoIndex, cre |-> NoCre, alias |-> 0, blob |-> NoBlob]
 EmptyTx == [o \in All |-> Absent]
-Idle == [pc |-> "idle", todo |-> <<>>, stack |-> <<>>, tx |-> EmptyTx]
+Idle == [pc |-> "idle", todo |-> <<>>, stack |-> <<>>, tx |-> EmptyTx, n |-> 0]
 
 (* ------------------------------ committed history ---------------------- *)
 CurIdxH(h, o, n) == LET S == {i \in 1..n : h[i].w[o] # Absent} IN IF S = {} THEN 0 ELSE Max(S)
 CurStH(h, o, n) == LET i == CurIdxH(h, o, n) IN IF i = 0 THEN Absent ELSE h[i].w[o]
 CurIdx(o, n) == CurIdxH(hist, o, n)
+NBy(who) == Cardinality({i \in 2..Len(hist) : hist[i].by = who})
+MaxHist == 1 + MaxCommit + MaxOther
 CurSt(o, n) == CurStH(hist, o, n)
 
 (* ------------------- the bundle the connection's methods work on ------- *)
@@ -123,9 +131,17 @@ InvalidateSet(b, X) ==
   [b EXCEPT !.ob = [o \in All |-> IF o \in X /\ b.ob[o].cached THEN Ghostify(b.ob[o]) ELSE b.ob[o]]]
 \* del obj._p_jar; del obj._p_oid (after: if obj._p_changed: obj._p_changed = False)
 Disown(x) == [x EXCEPT !.own = FALSE, !.cached = FALSE, !.flag = IF @ = "changed" THEN "clean" ELSE @]
-\* Connection._invalidate_creating(creating): only objects found in the cache are disowned
+\* Connection._invalidate_creating(creating): only objects found in the cache are disowned.  A ghost among them
+\* has its only state in the savepoint store that is about to be dropped or truncated: as the code is it ends
+\* as an ownerless empty ghost; the repaired design activates it first (blobs hand their data over for good).
+Revive(b, o) == LET s == LoadStH(hist, b, o) IN
+                IF b.ob[o].flag = "ghost" /\ o \notin Blobs /\ s # Unloadable
+                THEN [b.ob[o] EXCEPT !.flag = "clean", !.st = s] ELSE b.ob[o]
 InvalidateCreating(b, X) ==
-  [b EXCEPT !.ob = [o \in All |-> IF o \in X /\ b.ob[o].cached THEN Disown(b.ob[o]) ELSE b.ob[o]]]
+  [b EXCEPT !.ob = [o \in All |-> IF o \in X /\ b.ob[o].cached
+                                  THEN IF o \in Blobs THEN [Disown(b.ob[o]) EXCEPT !.st = IF @ = GhostSt THEN @ ELSE Gone]
+                                       ELSE Disown(IF InvalidateDoomed THEN b.ob[o] ELSE Revive(b, o))
+                                  ELSE b.ob[o]]]
 
 \* Connection._abort(): registered objects; `doomed` = objects the caller is going to disown next
 AbortRegistered(b, doomed) ==
@@ -242,14 +258,17 @@ SetObs(extra) == obs' = ObsOf(hist', [ob |-> ob', cn |-> cn', tmp |-> tmp', sps 
 \* violation is what there is to see, and what the code does with a dangling or emptied object is not modelled
 Live == obs.mon = {}
 App == cm.pc = "idle" /\ cn.opened /\ Live
+Act == App /\ cm.n < (IF NBy("c") < MaxCommit THEN MaxAct ELSE MaxTail) /\ cm' = [cm EXCEPT !.n = @ + 1]
 
 (* --------------------------------- Init -------------------------------- *)
 Init ==
-  /\ ob = [o \in All |-> IF o = Root THEN [own |-> TRUE, cached |-> TRUE, flag |-> "ghost", serial |-> 0, st |-> GhostSt]
+  /\ ob = [o \in All |-> IF o = Root \/ o \in Range(Pre)
+                         THEN [own |-> TRUE, cached |-> TRUE, flag |-> "ghost", serial |-> 0, st |-> GhostSt]
                          ELSE [own |-> FALSE, cached |-> FALSE, flag |-> "clean", serial |-> 0, st |-> St(V0, <<>>)]]
   /\ cn = [reg |-> <<>>, added |-> {}, creating |-> NoCre, modified |-> {Root}, joined |-> FALSE, opened |-> TRUE, start |-> 1]
   /\ tmp = NoTmp /\ sps = <<>>
-  /\ hist = << [by |-> "c", w |-> [o \in All |-> IF o = Root THEN St(V0, <<>>) ELSE Absent]] >>
+  /\ hist = << [by |-> "c", w |-> [o \in All |-> IF o = Root THEN St(V0, Pre)
+                                                  ELSE IF o \in Range(Pre) THEN St(V0, <<>>) ELSE Absent]] >>
   /\ cm = Idle
   /\ obs = ObsOf(hist, B, cm, {})
 
@@ -262,7 +281,8 @@ Loaded(b, o) == IF b.ob[o].flag = "ghost"
 \* Connection.register (via _p_changed = True on a clean object of this connection)
 Register(b, o) == IF o \in b.cn.added THEN b
                   ELSE [b EXCEPT !.cn.joined = TRUE, !.cn.reg = Append(@, o)]
-Usable(o) == (~ob[o].own /\ ob[o].flag # "ghost") \/ (ob[o].own /\ (ob[o].flag # "ghost" \/ Loadable(o)))
+Usable(o) == (~ob[o].own /\ ob[o].flag # "ghost" /\ ob[o].st # Gone) \/ (ob[o].own /\ (ob[o].flag # "ghost" \/ Loadable(o)))
+Fresh(o) == o \notin Blobs \/ ob[o].own \/ (ob[o].flag # "ghost" /\ ob[o].st # Gone)      \* not a blob that was disowned
 \* the application assigns a new state to o (ghosts are activated by the access)
 Touch(o, f(_)) ==
   IF ~ob[o].own THEN Set([B EXCEPT !.ob[o].st = f(@)])
@@ -271,30 +291,30 @@ Touch(o, f(_)) ==
        IN Set([b2 EXCEPT !.ob[o].st = f(@)])
 
 Modify(o, v) ==
-  /\ App /\ Usable(o) /\ SeenH(hist, B, o).v # v
+  /\ Act /\ Usable(o) /\ SeenH(hist, B, o).v # v /\ (ob[o].own \/ "free" \in Ops)
   /\ Touch(o, LAMBDA s : [s EXCEPT !.v = v])
-  /\ UNCHANGED <<sps, hist, cm>> /\ SetObs({})
+  /\ UNCHANGED <<sps, hist>> /\ SetObs({})
 
 Link(p, o) ==
-  /\ App /\ <<p, o>> \in Edges /\ Usable(p) /\ o \notin Range(SeenH(hist, B, p).kids)
+  /\ Act /\ <<p, o>> \in Edges /\ Usable(p) /\ Fresh(o) /\ o \notin Range(SeenH(hist, B, p).kids)
   /\ Touch(p, LAMBDA s : [s EXCEPT !.kids = Append(@, o)])
-  /\ UNCHANGED <<sps, hist, cm>> /\ SetObs({})
+  /\ UNCHANGED <<sps, hist>> /\ SetObs({})
 
 Unlink(p, o) ==
-  /\ App /\ <<p, o>> \in Edges /\ Usable(p) /\ o \in Range(SeenH(hist, B, p).kids)
+  /\ Act /\ <<p, o>> \in Edges /\ Usable(p) /\ o \in Range(SeenH(hist, B, p).kids)
   /\ Touch(p, LAMBDA s : [s EXCEPT !.kids = Without(@, o)])
-  /\ UNCHANGED <<sps, hist, cm>> /\ SetObs({})
+  /\ UNCHANGED <<sps, hist>> /\ SetObs({})
 
 Load(o) ==
-  /\ App /\ "load" \in Ops /\ Loadable(o)
+  /\ Act /\ "load" \in Ops /\ Loadable(o)
   /\ Set(Loaded(B, o))
-  /\ UNCHANGED <<sps, hist, cm>> /\ SetObs({})
+  /\ UNCHANGED <<sps, hist>> /\ SetObs({})
 
 \* Connection.add(obj)
 AddExplicit(o) ==
-  /\ App /\ "add" \in Ops /\ o \in Obj /\ ~ob[o].own
+  /\ Act /\ "add" \in Ops /\ o \in Obj /\ ~ob[o].own /\ Fresh(o)
   /\ Set([B EXCEPT !.ob[o].own = TRUE, !.cn.joined = TRUE, !.cn.reg = Append(@, o), !.cn.added = @ \cup {o}])
-  /\ UNCHANGED <<sps, hist, cm>> /\ SetObs({})
+  /\ UNCHANGED <<sps, hist>> /\ SetObs({})
 
 (* -------------------------------- savepoints --------------------------- *)
 SpRec(kind, b) == [kind |-> kind, pos |-> b.tmp.pos, index |-> b.tmp.index, cre |-> b.tmp.cre, blob |-> b.tmp.blob,
@@ -302,11 +322,11 @@ SpRec(kind, b) == [kind |-> kind, pos |-> b.tmp.pos, index |-> b.tmp.index, cre 
 \* transaction.savepoint(): a joined connection is asked for a savepoint; one that joins later gets an
 \* AbortSavepoint (kind "abort": rolling back aborts it and makes it leave the transaction)
 Savepoint ==
-  /\ App /\ "sp" \in Ops /\ Len(sps) < MaxSp
+  /\ Act /\ "sp" \in Ops /\ Len(sps) < MaxSp
   /\ IF cn.joined
      THEN LET b == SavepointOp(B) IN Set(b) /\ sps' = Append(b.sps, SpRec("tmp", b))
      ELSE UNCHANGED <<ob, cn, tmp>> /\ sps' = Append(sps, SpRec("abort", B))
-  /\ UNCHANGED <<hist, cm>> /\ SetObs({})
+  /\ UNCHANGED hist /\ SetObs({})
 
 \* Connection._rollback_savepoint(state)
 RollbackOp(b, k) ==
@@ -321,19 +341,20 @@ RollbackOp(b, k) ==
 
 RollbackDiff(snap, b) == {[clause |-> "rollback", obj |-> o] : o \in {o \in All : SnapH(hist, b)[o] # snap[o]}}
 Rollback(k) ==
-  /\ App /\ k \in 1..Len(sps)
+  /\ Act /\ k \in 1..Len(sps)
   /\ LET b == IF sps[k].kind = "tmp" THEN RollbackOp(B, k)
               ELSE IF cn.joined THEN AbortOp(B) ELSE B
      IN /\ Set(b) /\ sps' = SubSeq(b.sps, 1, k)
-        /\ UNCHANGED <<hist, cm>> /\ SetObs(RollbackDiff(sps[k].snap, b))
+        /\ UNCHANGED hist /\ SetObs(RollbackDiff(sps[k].snap, b))
 
 (* ---------------------------------- commit ----------------------------- *)
 \* transaction.commit(): savepoints die, tpc_begin on every resource manager
 Begin ==
-  /\ App /\ cn.joined /\ Len(hist) < MaxHist
+  /\ App /\ cn.joined /\ NBy("c") < MaxCommit
   /\ cn' = [cn EXCEPT !.modified = {}, !.creating = NoCre]
-  /\ cm' = [pc |-> "begun", todo |-> IF tmp.on THEN <<>> ELSE cn.reg, stack |-> <<>>, tx |-> EmptyTx]
-  /\ sps' = <<>> /\ UNCHANGED <<ob, tmp, hist>> /\ SetObs({})
+  /\ cm' = [pc |-> "begun", todo |-> IF tmp.on THEN <<>> ELSE cn.reg, stack |-> <<>>, tx |-> EmptyTx, n |-> 0]
+  \* the savepoints are dead, so is the sharing of a dict with one of them
+  /\ sps' = <<>> /\ tmp' = [tmp EXCEPT !.alias = 0] /\ UNCHANGED <<ob, hist>> /\ SetObs({})
 
 Storing == cm.pc = "begun" /\ ~tmp.on
 NextTodo == SkipTodo(B, cm.todo)
@@ -358,8 +379,12 @@ Stored ==
 \* commit() with a savepoint store: savepoint() once more, then _commit_savepoint copies every record of the
 \* savepoint store into the real storage and closes the store
 SpConflicts(b) == {o \in IdxSet(b.tmp.index) : CurIdx(o, b.cn.start) # 0 /\ CurIdx(o, b.cn.start) # CurIdx(o, Len(hist))}
-SpPrepared(b) ==      \* after savepoint(): _storage = normal, _savepoint_storage = None, _modified/_creating filled
-  [b EXCEPT !.cn.modified = @ \cup IdxSet(b.tmp.index),
+SpPrepared(b0) ==     \* after savepoint(): _storage = normal, _savepoint_storage = None, _modified/_creating filled
+  LET b == IF InvalidateDoomed THEN b0
+           ELSE [b0 EXCEPT !.ob = [o \in All |-> IF b0.tmp.cre[o] # "-" /\ b0.ob[o].cached THEN Revive(b0, o) ELSE b0.ob[o]]]
+  IN    \* (a blob record: storeBlob, then self._cache.invalidate(oid))
+  [InvalidateSet(b, IdxSet(b.tmp.index) \cap Blobs)
+     EXCEPT !.cn.modified = @ \cup IdxSet(b.tmp.index),
             !.cn.creating = [o \in All |-> IF b.tmp.cre[o] # "-" THEN b.tmp.cre[o] ELSE @[o]],
             !.tmp = NoTmp]
 SpTx(b) == [o \in All |-> IF o \in Blobs /\ b.tmp.index[o] # Absent THEN St(b.tmp.blob[o], <<>>) ELSE b.tmp.index[o]]
@@ -397,7 +422,7 @@ Failed(b, voted) == Set(CleanupFail(b, voted)) /\ cm' = Idle /\ sps' = <<>> /\ U
 \* a resource manager sorted before the connection raises in its tpc_begin
 FailBeforeBegin ==
   /\ App /\ "rm" \in Ops /\ cn.joined
-  /\ Set(Boundary(AbortOp(B), hist)) /\ sps' = <<>> /\ UNCHANGED <<hist, cm>> /\ SetObs({})
+  /\ Set(Boundary(AbortOp(B), hist)) /\ sps' = <<>> /\ cm' = Idle /\ UNCHANGED hist /\ SetObs({})
 
 \* ... after the connection's tpc_begin, before it stored anything
 FailBegun ==
@@ -438,7 +463,7 @@ FinishThenFail ==
 Abort ==
   /\ App
   /\ Set(Boundary(IF cn.joined THEN AbortOp(B) ELSE B, hist))
-  /\ sps' = <<>> /\ UNCHANGED <<hist, cm>> /\ SetObs({})
+  /\ sps' = <<>> /\ cm' = Idle /\ UNCHANGED hist /\ SetObs({})
 
 \* Connection.close(): refused while joined (nothing changes)
 Close ==
@@ -454,7 +479,7 @@ Reopen ==
 \* the second connection commits a new value for a committed object
 OtherCommit(o) ==
   /\ "other" \in Ops /\ cm.pc = "idle" /\ Live /\ o \in All \ Blobs
-  /\ Len(hist) < MaxHist /\ Cardinality({i \in 1..Len(hist) : hist[i].by = "o"}) < MaxOther
+  /\ NBy("o") < MaxOther
   /\ CurIdx(o, Len(hist)) # 0
   /\ hist' = Append(hist, [by |-> "o", w |-> [p \in All |-> IF p = o THEN St(OtherVal, CurSt(o, Len(hist)).kids) ELSE Absent]])
   /\ UNCHANGED <<ob, cn, tmp, sps, cm>> /\ SetObs({})
